@@ -271,6 +271,8 @@ pub enum WOp {
     ReadSome,
     /// seek + write beyond the 1024 buffer (overflow write-back), no flush
     Overflow,
+    /// append 12000 bytes to /s2 and flush (with the big buffer: one write-back of 12000 bytes)
+    BigWrite,
 }
 
 #[derive(Clone, Copy, Debug, PartialEq, Eq, Serialize, Deserialize)]
@@ -295,6 +297,19 @@ pub struct SchedCase {
     pub policy: Policy,
     pub writer: Vec<WOp>,
     pub readers: Vec<Vec<ROp>>,
+    /// handles use the default 1 MiB buffer instead of the 1024-byte minimum
+    #[serde(default)]
+    pub big_buffer: bool,
+}
+
+impl SchedCase {
+    fn max_buf(&self) -> usize {
+        if self.big_buffer {
+            1 << 20
+        } else {
+            1024
+        }
+    }
 }
 
 fn base_image(version: u16) -> Vec<u8> {
@@ -327,13 +342,13 @@ fn do_rop(comp: &CF, op: ROp) -> Vec<String> {
         ROp::IsStorage => vec![format!("{}", comp.is_storage("/d"))],
         ROp::RootEntry => vec![entry_str(&comp.root_entry())],
         ROp::ReadStorage => match comp.read_storage("/d") {
-            Ok(it) => it.map(|e| entry_str(&e)).collect(),
+            Ok(it) => it.take(ops::WALK_LIMIT).map(|e| entry_str(&e)).collect(),
             Err(e) => vec![format!("Err {}", e)],
         },
-        ROp::ReadRoot => comp.read_root_storage().map(|e| entry_str(&e)).collect(),
-        ROp::Walk => comp.walk().map(|e| entry_str(&e)).collect(),
+        ROp::ReadRoot => comp.read_root_storage().take(ops::WALK_LIMIT).map(|e| entry_str(&e)).collect(),
+        ROp::Walk => comp.walk().take(ops::WALK_LIMIT).map(|e| entry_str(&e)).collect(),
         ROp::WalkStorage => match comp.walk_storage("/d") {
-            Ok(it) => it.map(|e| entry_str(&e)).collect(),
+            Ok(it) => it.take(ops::WALK_LIMIT).map(|e| entry_str(&e)).collect(),
             Err(e) => vec![format!("Err {}", e)],
         },
     }
@@ -402,6 +417,12 @@ fn do_wop(h: &mut Handles, op: WOp, i: usize, tick: &mut dyn FnMut(bool)) -> Str
             WOp::Overflow => {
                 prim(tick, || h.s2.seek(SeekFrom::Start(10)))?;
                 write_all(&mut h.s2, &ops::pattern(92 + i as u64, 2500), tick)?;
+                Ok("ok".into())
+            }
+            WOp::BigWrite => {
+                prim(tick, || h.s2.seek(SeekFrom::End(0)))?;
+                write_all(&mut h.s2, &ops::pattern(93 + i as u64, 12000), tick)?;
+                prim(tick, || h.s2.flush())?;
                 Ok("ok".into())
             }
         }
@@ -485,7 +506,7 @@ pub fn run_schedule(case: &SchedCase, image: &[u8], prefix: &[usize], pool: &Poo
     let n = 1 + case.readers.len();
     let sched = Arc::new(Sched::new(n, case.policy, prefix.to_vec()));
     let mem = MemFile::new(image.to_vec());
-    let mut comp: CF = cfb::OpenOptions::new().max_buffer_size(1024).open_with(mem).expect("open base image");
+    let mut comp: CF = cfb::OpenOptions::new().max_buffer_size(case.max_buf()).open_with(mem).expect("open base image");
     let mut handles = Handles { s1: ops::NoDropOnPanic::new(comp.open_stream("/s1").expect("s1")), s2: ops::NoDropOnPanic::new(comp.open_stream("/s2").expect("s2")) };
     let comp = Arc::new(comp);
     let wdone = Arc::new(AtomicUsize::new(0)); // completed writer handle calls
@@ -552,7 +573,7 @@ pub fn run_schedule(case: &SchedCase, image: &[u8], prefix: &[usize], pool: &Poo
 /// Sequential reference: result of every reader op after j whole writer ops.
 pub fn sequential_reference(case: &SchedCase, image: &[u8]) -> (Vec<std::collections::BTreeMap<String, Vec<String>>>, Vec<String>) {
     let mem = MemFile::new(image.to_vec());
-    let mut comp: CF = cfb::OpenOptions::new().max_buffer_size(1024).open_with(mem).expect("open base image");
+    let mut comp: CF = cfb::OpenOptions::new().max_buffer_size(case.max_buf()).open_with(mem).expect("open base image");
     let mut handles = Handles { s1: ops::NoDropOnPanic::new(comp.open_stream("/s1").expect("s1")), s2: ops::NoDropOnPanic::new(comp.open_stream("/s2").expect("s2")) };
     let mut table = Vec::new();
     let mut wres = Vec::new();
